@@ -176,7 +176,22 @@ def impl_case(case):
                         m = next(it, None)
                         if m is not None:
                             acc.append(m.time)
-            if nested != out['iter']:
+            # what iteration hands out are copies that belong to the consumer (play()'s documentation says so): a consumer
+            # that rewrites them - the tempo of a set_tempo, the time of anything - does not change the timing of the rest
+            edited = []
+            for m in mid:
+                edited.append(m.time)
+                if m.type == 'set_tempo':
+                    m.tempo = 1 if m.tempo != 1 else 999999
+                m.time = 12345.5
+            if edited != out['iter'] and fail is None:
+                fail = (f'a consumer that rewrites the messages it is handed (tempo of set_tempo, time) sees the times {edited[:8]}, '
+                        f'a consumer that only reads {out["iter"][:8]}')
+            elif [m.time for m in mid] != out['iter'] and fail is None:
+                fail = 'after a consumer rewrote the messages it was handed, a later iteration of the file gives other times'
+            if fail is not None:
+                pass
+            elif nested != out['iter']:
                 fail = f'message times seen by a loop that reads mid.length inside differ from a plain iteration: {nested[:8]} vs {out["iter"][:8]}'
             elif a != out['iter'] or b != out['iter']:
                 fail = f'two iterators of one file running side by side see {a[:8]} / {b[:8]}, a single iteration {out["iter"][:8]}'
